@@ -325,7 +325,7 @@ func runC07(cfg *hx.Config) {
 	if cfg.Thorough() {
 		n = 1500
 	}
-	for _, tname := range recordTops {
+	for _, tname := range append(append([]string{}, recordTops...), "ONest", "ONest") {
 		t := ref(tname)
 		for i := 0; i < n; i++ {
 			v := schema.gen(r, t, genOpts{utf8: true, depth: 1 + r.Intn(3)})
